@@ -351,7 +351,7 @@ def _pipeline_chunk(cases):
             warnings = []
             err = None
             try:
-                rcsv.query_csv(query, inp, ',', case['ipol'], outp, ';', case['opol'], 'utf-8', warnings, bool(case['header']))
+                rcsv.query_csv(query, inp, S(case['indlm']), case['ipol'], outp, ';', case['opol'], 'utf-8', warnings, bool(case['header']))
             except Exception as e:  # noqa
                 err = (engine.project_error(eng, e)['cls'], str(e))
             if case['rderr']:
@@ -387,17 +387,17 @@ def _pipeline_chunk(cases):
     return out
 
 
-def pipeline(run, label, alphabet, maxlen, header):
+def pipeline(run, label, alphabet, maxlen, header, dlm=44, inpolicies=('simple', 'quoted', 'quoted_rfc'), queries=(1, 2)):
     """query_csv at the level of text: Pipeline.tla (RefRead ; query ; WriteTable) enumerated by TLC, every case through the real query_csv with
     different input and output dialects (',' in, ';' out)."""
     d = tlcrun.new_scratch('c13p')
-    consts = {'DlmA': 44, 'DlmB': 0, 'EmitCases': 'TRUE', 'Recs': '{}', 'MaxRecs': 0, 'WPolicies': '{}', 'LineSeps': '{}',
-              'PAlphabet': '{' + ', '.join(map(str, alphabet)) + '}', 'PMaxLen': maxlen, 'InPolicies': '{"simple", "quoted", "quoted_rfc"}',
-              'OutPolicies': '{"simple", "quoted", "quoted_rfc"}', 'OutDlm': 59, 'WithHeader': 'TRUE' if header else 'FALSE'}
+    consts = {'DlmA': dlm, 'DlmB': 0, 'EmitCases': 'TRUE', 'Recs': '{}', 'MaxRecs': 0, 'WPolicies': '{}', 'LineSeps': '{}',
+              'PAlphabet': '{' + ', '.join(map(str, alphabet)) + '}', 'PMaxLen': maxlen, 'InPolicies': '{' + ', '.join('"%s"' % x for x in inpolicies) + '}',
+              'OutPolicies': '{"simple", "quoted", "quoted_rfc"}', 'OutDlm': 59, 'WithHeader': 'TRUE' if header else 'FALSE', 'PQueries': '{' + ', '.join(map(str, queries)) + '}'}
     cfg = tlcrun.write_cfg(os.path.join(d, label + '.cfg'), constants=consts, init='PInit', next_='PNext', invariants=['ReReadable', 'PEmit'])
     res = tlcrun.run_tlc('Pipeline', cfg, timeout=7200, heap='24g')
     run.add_tlc('Pipeline:' + label, res)
-    want = sum(len(alphabet) ** k for k in range(maxlen + 1)) * 18
+    want = sum(len(alphabet) ** k for k in range(maxlen + 1)) * 3 * len(inpolicies) * len(queries)
     if len(res.cases) != want:
         core.machinery_failure('%s: expected %d pipeline cases, got %d' % (label, want, len(res.cases)))
     outs = par.pmap(_pipeline_chunk, res.cases, chunk=600)
@@ -454,6 +454,7 @@ def check(run):
     run_family(run, 'frontends-join', 'Q_C13join', 'R_2x2', 2, recsB='R_2x2', maxB=2, cli_every=40 if quick else 10)
     pipeline(run, 'text-pipeline', [97, 34, 44, 59, 10, 32], 3 if quick else 5, False)
     pipeline(run, 'text-pipeline-header', [97, 34, 44, 59, 10, 32], 3 if quick else 4, True)
+    pipeline(run, 'text-pipeline-whitespace-monocolumn', [97, 34, 32, 59, 10], 4 if quick else 5, False, dlm=32, inpolicies=('whitespace', 'monocolumn'), queries=(1,))
     cli_environment_faults(run)
     ctl = core.Run(run.prop, run.tier, run.seed)
     if frontends.validate(ctl, 'cli', [{'tid': 'x', 'exit': 0, 'stdout_is_table': True, 'stderr_kinds': ['error'], 'outcome': 'ok'}], 'control') != {'x'}:
